@@ -2,6 +2,7 @@ package main
 
 import (
 	"go/constant"
+	"go/token"
 	"go/types"
 	"strings"
 
@@ -625,5 +626,64 @@ func ruleDecolorize(r *Run) {
 	}
 	if !bad {
 		o.OK("returns ansiRegex.ReplaceAllString(line, \"\")").At(r.pos(fn.Pos()))
+	}
+}
+
+// ruleValueStrGuarded: pcommon.Value.Str() yields "" for a value that is not of string type (a
+// number or boolean extracted by `| json`). Wherever the engine reads a label value as text it must
+// use AsString(); Str() is allowed only where the value's type is known to be ValueTypeStr.
+func ruleValueStrGuarded(r *Run) {
+	p := r.P
+	const pc = "go.opentelemetry.io/collector/pdata/pcommon"
+	o := r.Ob("PV-API", "logqlengine pcommon.Value.Str", "a label value is read as text with AsString(); Str() (empty for non-string values) is called only under a test that the value's type is ValueTypeStr")
+	strT, ok := pkgConst(p, pc, "ValueTypeStr")
+	if !ok {
+		o.Fail("-", "pcommon.ValueTypeStr not found")
+		return
+	}
+	n, nAs, bad := 0, 0, false
+	for _, fn := range p.SrcFuncs() {
+		pk := fn.Pkg
+		if pk == nil && fn.Parent() != nil {
+			pk = fn.Parent().Pkg
+		}
+		if pk == nil || !strings.HasPrefix(pk.Pkg.Path(), modPath+"/"+enginePkg) {
+			continue
+		}
+		for _, c := range callsIn(fn) {
+			if callIs(c, pc, "(Value).AsString") {
+				nAs++
+			}
+			if !callIs(c, pc, "(Value).Str") {
+				continue
+			}
+			n++
+			recv := describe(unspill(c.Common().Args[0]), 2)
+			guarded := false
+			for _, f := range factsAt(c.Block()) {
+				b, ok := f.Cond.(*ssa.BinOp)
+				if !ok || b.Op != token.EQL || !f.Truth {
+					continue
+				}
+				for _, pair := range [][2]ssa.Value{{b.X, b.Y}, {b.Y, b.X}} {
+					tc, ok := pair[0].(*ssa.Call)
+					cv, okc := constOf(pair[1])
+					if ok && okc && callIs(tc, pc, "(Value).Type") && constant.Compare(cv, token.EQL, strT) && describe(unspill(tc.Call.Args[0]), 2) == recv {
+						guarded = true
+					}
+				}
+			}
+			if !guarded {
+				bad = true
+				o.Fail(r.pos(c.Pos()), "%s calls Str() on a label value whose type is not known to be string: numbers and booleans read as \"\"", shortFuncName(fn))
+			}
+		}
+	}
+	if nAs < 5 {
+		bad = true
+		o.Fail("-", "only %d AsString() call sites found, floor 5", nAs)
+	}
+	if !bad {
+		o.OK("%d Str() call(s), each under Type() == ValueTypeStr; %d AsString() call(s)", n, nAs)
 	}
 }
